@@ -2,6 +2,7 @@ import Nstd.Seq.LemmasStep
 import Nstd.Seq.LemmasNodes
 import Nstd.Seq.LemmasPtrSort
 import Nstd.Seq.LemmasRaw
+import Nstd.Generated.SeqConst
 /-
   Property C03: List, Array and PoolList hold exactly the reference sequence; List::sort leaves an
   ascending permutation.
@@ -305,6 +306,37 @@ theorem reserve_policy (s : AState) (n : Nat) :
     by_cases c : n > cap
     · simp [c, or3, AState.elems, Nat.max_eq_left (Nat.le_of_lt c)]
     · simp [c]
+
+/-- the growth rule stated over the mask that the translator reads out of the CURRENT `Array::reserve`
+    (`lean/Nstd/Generated/SeqConst.lean`, regenerated on every run): the model's new capacity is
+    `max n capacity | <mask of the source>`.  A changed mask in the source makes this theorem (and the
+    correspondence) fail. -/
+theorem reserve_policy_source (s : AState) (n : Nat) :
+    (s.reserve n).1.cap =
+      if n > s.cap ∨ (s.data = none ∧ n > 0) then (max n s.cap) ||| Generated.Seq.arrayCapMask else s.cap := by
+  obtain ⟨cap, data⟩ := s
+  unfold AState.reserve Generated.Seq.arrayCapMask
+  cases data with
+  | none =>
+    by_cases c : n > cap ∨ n > 0
+    · by_cases c2 : n > cap
+      · simp [c2, Nat.max_eq_left (Nat.le_of_lt c2)]
+      · have c0 : 0 < n := by omega
+        simp [c2, c0, Nat.max_eq_right (Nat.le_of_not_lt c2)]
+    · simp [c]
+  | some es =>
+    by_cases c : n > cap
+    · simp [c, Nat.max_eq_left (Nat.le_of_lt c)]
+    · simp [c]
+
+/-- the block size stated over the constants the translator reads out of the CURRENT `List::insert` and
+    `PoolList::allocateFreeItem` (allocation size and fill-loop bound): when the free list is empty the model
+    takes one item and leaves the other `N - 1` items of a fresh block on the free list -/
+theorem block_items_source (s : LState) (h : s.free = []) :
+    (LState.allocNode s).2.1.free.length + 1 = Generated.Seq.listBlockItems ∧
+    (LState.allocNode s).2.1.free.length + 1 = Generated.Seq.poolBlockItems ∧
+    (LState.allocNode s).2.1.nblocks = s.nblocks + 1 ∧ (LState.allocNode s).2.2 = 1 := by
+  simp [LState.allocNode, h, Generated.Seq.listBlockItems, Generated.Seq.poolBlockItems]
 
 /-- `append` does not reallocate while the capacity suffices (iterators/references stay valid) -/
 theorem append_no_realloc (s : AState) (x : Int) (es : List Int) (hd : s.data = some es) (hc : es.length < s.cap) :
